@@ -4,16 +4,24 @@
     chi) and QnPipeline.v (the pipeline density -> modes -> per-mode solve -> inverse over an abstract field
     with complex numbers as pairs).
 
-    The discrete Fourier transform pair and the per-mode radial solve are abstract: their laws
-    ([qn_dft_laws]: extensionality, idft o dft = id, linearity, conjugate symmetry of the transform of a real
-    line, real inverse transform of a conjugate-symmetric line; [qn_solve_laws]: extensionality, homogeneity,
-    commutation with conjugation) are HYPOTHESES of the pipeline theorems.  They are satisfiable
-    ([c15_dft2_laws], the 2-point DFT over Qc) and are checked by the harness on every vector that
-    scipy.fftpack transforms and on the solver's own matrices.
+    The pipeline theorems come in two forms.  (i) For ANY transform pair satisfying [qn_dft_laws]
+    (extensionality, idft o dft = id, linearity, conjugate symmetry of the transform of a real line, real
+    inverse transform of a conjugate-symmetric line) - the laws are hypotheses; this is the form scipy's
+    fft/ifft is checked against, vector by vector, by the harness.  (ii) For the mathematical DFT
+    sum_j x_j w^(jk) over the complex pairs of any field in which a^2+b^2=0 forces a=b=0, w a primitive n-th
+    root of unity of modulus 1: the laws are PROVED (DftTheory.v: geometric sum, orthogonality, both round
+    trips, linearity, Hermitian symmetry, real inverse; DftPairs.v: the pairs form a field, [c15_dft_laws])
+    and the pipeline theorems carry no hypothesis on the transform ([c15_dft_...]); instances over the
+    Gaussian rationals for n = 1, 2, 4.  The per-mode radial solve stays abstract ([qn_solve_laws]:
+    extensionality, homogeneity, commutation with conjugation are hypotheses; C14's subject).
+    QnSolveBuf.v models the SHARED coefficient buffer of solveEquation / _solveMode as a fold over modes and
+    z slices: the sequence of solves equals the list of independent solves for every initial buffer content.
 
     NOT proved here:
-    - the laws of scipy's fft/ifft and of the spline/sparse-solve chain of _solveMode (hypotheses; the content
-      of the per-mode solve is C14's subject);
+    - that scipy's fft/ifft IS the mathematical DFT (checked per transformed vector against the dense DFT and the
+      laws), and the laws of the spline/sparse-solve chain of _solveMode (hypotheses; C14's subject);
+    - that compute_interpolant overwrites the whole coefficient array of the interpolant (C08), so that the vector
+      assigned to the buffer view depends on the mode's line only (the modelling assumption of QnSolveBuf.v);
     - that flux-surface, v-parallel and poloidal advection leave the equilibrium unchanged under zero potential
       (hypotheses of [c15_equilibrium_fixed_point]: C10, C11, C12);
     - that the layout changes preserve the global field (C01 / C03; used as the definition of the distributed
@@ -21,7 +29,7 @@
     - floating-point rounding, including that n*(1/n) is not 1 in binary64 for n = 49, 98, 103, ... *)
 From Coq Require Import List Arith Lia ZArith Bool QArith Qcanon.
 Import ListNotations.
-From PGV Require Import Blocks Sums GridSteps Density QnModes QnPipeline DensityQc QnQc.
+From PGV Require Import Blocks Sums GridSteps Density QnModes QnPipeline DensityQc QnQc DftTheory DftPairs DftQc QnSolveBuf.
 Close Scope Q_scope.
 Close Scope Qc_scope.
 Open Scope nat_scope.
@@ -170,7 +178,169 @@ Theorem c15_equilibrium_fixed_point_iter :
 Proof. exact qn_equilibrium_fixed_point_iter. Qed.
 Print Assumptions c15_equilibrium_fixed_point_iter.
 
-(** the DFT laws assumed above are satisfiable: the 2-point DFT over Qc *)
+(** geometric-sum lemma over any field with a primitive n-th root of unity w: sum_{j<n} w^(j t) = n if n | t, else 0 *)
+Theorem c15_geom_sum :
+  forall (K : Type) (k0 k1 : K) (kadd kmul ksub kdiv : K -> K -> K) (kopp kinv : K -> K), field_theory k0 k1 kadd kmul ksub kopp kdiv kinv eq -> forall (n : nat) (w : K), df_prim_root K k0 k1 kadd kmul n w -> forall t : nat, sumn K k0 kadd n (fun j : nat => df_pow K k1 kmul w (j * t)) = (if t mod n =? 0 then df_ofnat K k0 k1 kadd n else k0).
+Proof. exact df_geom_sum. Qed.
+Print Assumptions c15_geom_sum.
+
+(** orthogonality: sum_j w^(j (l + (n-1) k)) = n [l = k] for l, k < n *)
+Theorem c15_dft_orthogonality :
+  forall (K : Type) (k0 k1 : K) (kadd kmul ksub kdiv : K -> K -> K) (kopp kinv : K -> K), field_theory k0 k1 kadd kmul ksub kopp kdiv kinv eq -> forall (n : nat) (w : K), df_prim_root K k0 k1 kadd kmul n w -> forall l k : nat, l < n -> k < n -> sumn K k0 kadd n (fun j : nat => df_pow K k1 kmul w (j * (l + (n - 1) * k))) = (if l =? k then df_ofnat K k0 k1 kadd n else k0).
+Proof. exact df_orth. Qed.
+Print Assumptions c15_dft_orthogonality.
+
+(** idft (dft x) = x for the mathematical DFT (abstract field K, primitive root, n invertible) *)
+Theorem c15_dft_round_trip :
+  forall (K : Type) (k0 k1 : K) (kadd kmul ksub kdiv : K -> K -> K) (kopp kinv : K -> K), field_theory k0 k1 kadd kmul ksub kopp kdiv kinv eq -> forall (n : nat) (w : K), df_prim_root K k0 k1 kadd kmul n w -> forall (x : nat -> K) (j : nat), j < n -> df_idft K k0 k1 kadd kmul kinv n w (df_dft K k0 k1 kadd kmul n w x) j = x j.
+Proof. exact df_round_trip. Qed.
+Print Assumptions c15_dft_round_trip.
+
+(** dft (idft y) = y *)
+Theorem c15_dft_round_trip_inv :
+  forall (K : Type) (k0 k1 : K) (kadd kmul ksub kdiv : K -> K -> K) (kopp kinv : K -> K), field_theory k0 k1 kadd kmul ksub kopp kdiv kinv eq -> forall (n : nat) (w : K), df_prim_root K k0 k1 kadd kmul n w -> forall (y : nat -> K) (k : nat), k < n -> df_dft K k0 k1 kadd kmul n w (df_idft K k0 k1 kadd kmul kinv n w y) k = y k.
+Proof. exact df_round_trip'. Qed.
+Print Assumptions c15_dft_round_trip_inv.
+
+(** the DFT is K-linear *)
+Theorem c15_dft_linear :
+  forall (K : Type) (k0 k1 : K) (kadd kmul ksub kdiv : K -> K -> K) (kopp kinv : K -> K), field_theory k0 k1 kadd kmul ksub kopp kdiv kinv eq -> forall (n : nat) (w c : K) (x y : nat -> K) (k : nat), df_dft K k0 k1 kadd kmul n w (fun j : nat => kadd (kmul c (x j)) (y j)) k = kadd (kmul c (df_dft K k0 k1 kadd kmul n w x k)) (df_dft K k0 k1 kadd kmul n w y k).
+Proof. exact df_dft_lin. Qed.
+Print Assumptions c15_dft_linear.
+
+(** the inverse DFT is K-linear *)
+Theorem c15_idft_linear :
+  forall (K : Type) (k0 k1 : K) (kadd kmul ksub kdiv : K -> K -> K) (kopp kinv : K -> K), field_theory k0 k1 kadd kmul ksub kopp kdiv kinv eq -> forall (n : nat) (w c : K) (x y : nat -> K) (k : nat), df_idft K k0 k1 kadd kmul kinv n w (fun j : nat => kadd (kmul c (x j)) (y j)) k = kadd (kmul c (df_idft K k0 k1 kadd kmul kinv n w x k)) (df_idft K k0 k1 kadd kmul kinv n w y k).
+Proof. exact df_idft_lin. Qed.
+Print Assumptions c15_idft_linear.
+
+(** for a conjugation (involutive ring automorphism with conj w = w^(n-1)): the transform of a real line is conjugate symmetric, index (n-k) mod n *)
+Theorem c15_dft_hermitian :
+  forall (K : Type) (k0 k1 : K) (kadd kmul ksub kdiv : K -> K -> K) (kopp kinv : K -> K), field_theory k0 k1 kadd kmul ksub kopp kdiv kinv eq -> forall (n : nat) (w : K), df_prim_root K k0 k1 kadd kmul n w -> forall cj : K -> K, df_conj_laws K k0 k1 kadd kmul n w cj -> forall x : nat -> K, (forall j : nat, j < n -> cj (x j) = x j) -> forall k : nat, k < n -> df_dft K k0 k1 kadd kmul n w x (qn_conj n k) = cj (df_dft K k0 k1 kadd kmul n w x k).
+Proof. exact df_dft_conj. Qed.
+Print Assumptions c15_dft_hermitian.
+
+(** the inverse transform of a conjugate-symmetric line is real *)
+Theorem c15_idft_of_hermitian_real :
+  forall (K : Type) (k0 k1 : K) (kadd kmul ksub kdiv : K -> K -> K) (kopp kinv : K -> K), field_theory k0 k1 kadd kmul ksub kopp kdiv kinv eq -> forall (n : nat) (w : K), df_prim_root K k0 k1 kadd kmul n w -> forall cj : K -> K, df_conj_laws K k0 k1 kadd kmul n w cj -> forall y : nat -> K, (forall k : nat, k < n -> y (qn_conj n k) = cj (y k)) -> forall j : nat, j < n -> cj (df_idft K k0 k1 kadd kmul kinv n w y j) = df_idft K k0 k1 kadd kmul kinv n w y j.
+Proof. exact df_idft_real. Qed.
+Print Assumptions c15_idft_of_hermitian_real.
+
+(** pairs (re, im) over a field where a^2+b^2=0 forces a=b=0 form a field under complex multiplication *)
+Theorem c15_complex_pairs_field :
+  forall (F : Type) (f0 f1 : F) (fadd fmul fsub fdiv : F -> F -> F) (fopp finv : F -> F), field_theory f0 f1 fadd fmul fsub fopp fdiv finv eq -> (forall a b : F, fadd (fmul a a) (fmul b b) = f0 -> a = f0 /\ b = f0) -> field_theory (cx0 F f0) (cx1 F f0 f1) (cx_add F fadd) (cx_mul F fadd fmul fsub) (cx_sub F fsub) (cx_opp F fopp) (cx_div F fadd fmul fsub fdiv fopp) (cx_inv F fadd fmul fdiv fopp) eq.
+Proof. exact cx_field. Qed.
+Print Assumptions c15_complex_pairs_field.
+
+(** the laws qn_dft_laws assumed by the pipeline theorems HOLD for the mathematical DFT on complex pairs, w a primitive n-th root of unity of modulus 1 *)
+Theorem c15_dft_laws :
+  forall (F : Type) (f0 f1 : F) (fadd fmul fsub fdiv : F -> F -> F) (fopp finv : F -> F), field_theory f0 f1 fadd fmul fsub fopp fdiv finv eq -> (forall a b : F, fadd (fmul a a) (fmul b b) = f0 -> a = f0 /\ b = f0) -> forall (n : nat) (w : qn_C F), cx_root F f0 f1 fadd fmul fsub n w -> qn_dft_laws F f0 fadd fmul fopp n (cx_dft F f0 f1 fadd fmul fsub n w) (cx_idft F f0 f1 fadd fmul fsub fdiv fopp n w).
+Proof. exact cx_dft_laws. Qed.
+Print Assumptions c15_dft_laws.
+
+(** pipeline with the transform laws discharged: zero density => zero potential *)
+Theorem c15_dft_zero_density_zero_potential :
+  forall (F : Type) (f0 f1 : F) (fadd fmul fsub fdiv : F -> F -> F) (fopp finv : F -> F), field_theory f0 f1 fadd fmul fsub fopp fdiv finv eq -> (forall a b : F, fadd (fmul a a) (fmul b b) = f0 -> a = f0 /\ b = f0) -> forall (n : nat) (w : qn_C F), cx_root F f0 f1 fadd fmul fsub n w -> forall (nr : nat) (P : Type) (solveP : P -> qn_vec F -> qn_vec F) (ptab : list P) (dP : P), qn_solve_laws F fmul fopp nr P solveP -> forall rho : qn_fld F, (forall r k : nat, r < nr -> k < n -> rho r k = qn_c0 F f0) -> forall r k : nat, r < nr -> k < n -> qn_phi F (cx_dft F f0 f1 fadd fmul fsub n w) (cx_idft F f0 f1 fadd fmul fsub fdiv fopp n w) P solveP ptab dP rho r k = qn_c0 F f0.
+Proof. exact qn_dft_zero_density_zero_potential. Qed.
+Print Assumptions c15_dft_zero_density_zero_potential.
+
+(** laws discharged: equilibrium distribution => zero potential *)
+Theorem c15_dft_equilibrium_phi_zero :
+  forall (F : Type) (f0 f1 : F) (fadd fmul fsub fdiv : F -> F -> F) (fopp finv : F -> F), field_theory f0 f1 fadd fmul fsub fopp fdiv finv eq -> (forall a b : F, fadd (fmul a a) (fmul b b) = f0 -> a = f0 /\ b = f0) -> forall (n : nat) (w : qn_C F), cx_root F f0 f1 fadd fmul fsub n w -> forall (nr : nat) (P : Type) (solveP : P -> qn_vec F -> qn_vec F) (ptab : list P) (dP : P), qn_solve_laws F fmul fopp nr P solveP -> forall (nc : nat) (qf : nat -> F) (f : nat -> nat -> nat -> F) (feq : nat -> nat -> F), (forall r k l : nat, r < nr -> k < n -> l < nc -> f r k l = feq r l) -> forall r k : nat, r < nr -> k < n -> qn_phi F (cx_dft F f0 f1 fadd fmul fsub n w) (cx_idft F f0 f1 fadd fmul fsub fdiv fopp n w) P solveP ptab dP (qn_density F f0 fadd fmul fsub nc qf f feq) r k = qn_c0 F f0.
+Proof. exact qn_dft_equilibrium_phi_zero. Qed.
+Print Assumptions c15_dft_equilibrium_phi_zero.
+
+(** laws discharged: real density => real potential *)
+Theorem c15_dft_real_in_real_out :
+  forall (F : Type) (f0 f1 : F) (fadd fmul fsub fdiv : F -> F -> F) (fopp finv : F -> F), field_theory f0 f1 fadd fmul fsub fopp fdiv finv eq -> (forall a b : F, fadd (fmul a a) (fmul b b) = f0 -> a = f0 /\ b = f0) -> forall (n : nat) (w : qn_C F), cx_root F f0 f1 fadd fmul fsub n w -> forall (nr : nat) (P : Type) (solveP : P -> qn_vec F -> qn_vec F) (ptab : list P) (dP : P), qn_solve_laws F fmul fopp nr P solveP -> forall rho : qn_fld F, (forall I : nat, I < n -> qn_par P ptab dP (qn_conj n I) = qn_par P ptab dP I) -> (forall r k : nat, r < nr -> k < n -> qn_is_real F f0 (rho r k)) -> forall r k : nat, r < nr -> k < n -> qn_is_real F f0 (qn_phi F (cx_dft F f0 f1 fadd fmul fsub n w) (cx_idft F f0 f1 fadd fmul fsub fdiv fopp n w) P solveP ptab dP rho r k).
+Proof. exact qn_dft_real_in_real_out. Qed.
+Print Assumptions c15_dft_real_in_real_out.
+
+(** laws discharged, model parameters of the QN configuration: real density => real potential *)
+Theorem c15_dft_QN_real_in_real_out :
+  forall (F : Type) (f0 f1 : F) (fadd fmul fsub fdiv : F -> F -> F) (fopp finv : F -> F), field_theory f0 f1 fadd fmul fsub fopp fdiv finv eq -> (forall a b : F, fadd (fmul a a) (fmul b b) = f0 -> a = f0 /\ b = f0) -> forall (n nr : nat) (w : qn_C F), cx_root F f0 f1 fadd fmul fsub n w -> forall (solveP : qn_param -> qn_vec F -> qn_vec F) (nb : Z) (d : qn_param), qn_solve_laws F fmul fopp nr qn_param solveP -> forall rho : qn_fld F, (forall r k : nat, r < nr -> k < n -> qn_is_real F f0 (rho r k)) -> forall r k : nat, r < nr -> k < n -> qn_is_real F f0 (qn_phi F (cx_dft F f0 f1 fadd fmul fsub n w) (cx_idft F f0 f1 fadd fmul fsub fdiv fopp n w) qn_param solveP (qn_params nb qn_QN_lN qn_QN_uN n) d rho r k).
+Proof. exact qn_dft_QN_real_in_real_out. Qed.
+Print Assumptions c15_dft_QN_real_in_real_out.
+
+(** laws discharged: distributed pipeline = global per-mode pipeline *)
+Theorem c15_dft_pipeline_is_per_mode_solve :
+  forall (F : Type) (f0 f1 : F) (fadd fmul fsub fdiv : F -> F -> F) (fopp finv : F -> F), field_theory f0 f1 fadd fmul fsub fopp fdiv finv eq -> (forall a b : F, fadd (fmul a a) (fmul b b) = f0 -> a = f0 /\ b = f0) -> forall (n : nat) (w : qn_C F), cx_root F f0 f1 fadd fmul fsub n w -> forall (nr : nat) (P : Type) (solveP : P -> qn_vec F -> qn_vec F) (ptab : list P) (dP : P) (p : nat), 0 < p -> forall rho : qn_fld F, qn_solve_laws F fmul fopp nr P solveP -> forall r k : nat, r < nr -> k < n -> qn_phiD F n nr (cx_dft F f0 f1 fadd fmul fsub n w) (cx_idft F f0 f1 fadd fmul fsub fdiv fopp n w) P solveP ptab dP p rho r k = qn_phi F (cx_dft F f0 f1 fadd fmul fsub n w) (cx_idft F f0 f1 fadd fmul fsub fdiv fopp n w) P solveP ptab dP rho r k.
+Proof. exact qn_dft_pipeline_is_per_mode_solve. Qed.
+Print Assumptions c15_dft_pipeline_is_per_mode_solve.
+
+(** laws discharged: two process counts give the same potential *)
+Theorem c15_dft_pipeline_decomposition_free :
+  forall (F : Type) (f0 f1 : F) (fadd fmul fsub fdiv : F -> F -> F) (fopp finv : F -> F), field_theory f0 f1 fadd fmul fsub fopp fdiv finv eq -> (forall a b : F, fadd (fmul a a) (fmul b b) = f0 -> a = f0 /\ b = f0) -> forall (n : nat) (w : qn_C F), cx_root F f0 f1 fadd fmul fsub n w -> forall (nr : nat) (P : Type) (solveP : P -> qn_vec F -> qn_vec F) (ptab : list P) (dP : P), qn_solve_laws F fmul fopp nr P solveP -> forall (p q : nat) (rho : qn_fld F), 0 < p -> 0 < q -> forall r k : nat, r < nr -> k < n -> qn_phiD F n nr (cx_dft F f0 f1 fadd fmul fsub n w) (cx_idft F f0 f1 fadd fmul fsub fdiv fopp n w) P solveP ptab dP p rho r k = qn_phiD F n nr (cx_dft F f0 f1 fadd fmul fsub n w) (cx_idft F f0 f1 fadd fmul fsub fdiv fopp n w) P solveP ptab dP q rho r k.
+Proof. exact qn_dft_pipeline_decomposition_free. Qed.
+Print Assumptions c15_dft_pipeline_decomposition_free.
+
+(** Qc satisfies the hypothesis on the real field *)
+Theorem c15_sum_of_squares_Qc :
+  forall a b : Qc, (a * a + b * b)%Qc = Q2Qc 0 -> a = Q2Qc 0 /\ b = Q2Qc 0.
+Proof. exact dfq_sum_sq. Qed.
+Print Assumptions c15_sum_of_squares_Qc.
+
+(** instance: n = 1 over the Gaussian rationals *)
+Theorem c15_dft_laws_n1 :
+  qn_dft_laws Qc (Q2Qc 0) Qcplus Qcmult Qcopp 1 (dfq_dft 1 (dfq_c 1 0)) (dfq_idft 1 (dfq_c 1 0)).
+Proof. exact dfq_laws1. Qed.
+Print Assumptions c15_dft_laws_n1.
+
+(** instance: n = 2, w = -1 *)
+Theorem c15_dft_laws_n2 :
+  qn_dft_laws Qc (Q2Qc 0) Qcplus Qcmult Qcopp 2 (dfq_dft 2 (dfq_c (-1) 0)) (dfq_idft 2 (dfq_c (-1) 0)).
+Proof. exact dfq_laws2. Qed.
+Print Assumptions c15_dft_laws_n2.
+
+(** instance: n = 4, w = -i (needs the imaginary unit: Gaussian rationals as pairs) *)
+Theorem c15_dft_laws_n4 :
+  qn_dft_laws Qc (Q2Qc 0) Qcplus Qcmult Qcopp 4 (dfq_dft 4 (dfq_c 0 (-1))) (dfq_idft 4 (dfq_c 0 (-1))).
+Proof. exact dfq_laws4. Qed.
+Print Assumptions c15_dft_laws_n4.
+
+(** solveEquation / _solveMode with the SHARED buffer self._coeffs, as a fold over the modes of the rank and their z slices: for EVERY initial buffer content the lines written to phi are those of the independent solves evalr (zeros a ++ usolve par line ++ zeros (nb-b)) - given slices with a <= 1, nb-1 <= b <= nb and one solved value per unknown *)
+Theorem c15_solve_sequence_is_independent_solves :
+  forall (T : Type) (t0 : T) (Line Out P : Type) (crange : P -> nat * nat) (usolve : P -> Line -> list T) (evalr : list T -> Out) (nb : nat) (modes : list (P * list Line)), 1 <= nb -> forall buf : list T, length buf = nb -> (forall (par : P) (lines : list Line) (ln : Line), In (par, lines) modes -> In ln lines -> qs_adm T Line P crange usolve nb par ln) -> exists buf' : list T, qs_solve_equation T t0 Line Out P crange usolve evalr buf modes = Some (buf', map (fun ml : P * list Line => map (fun ln : Line => evalr (qs_indep T t0 Line P crange usolve nb (fst ml) ln)) (snd ml)) modes) /\ length buf' = nb.
+Proof. exact qs_solve_equation_independent. Qed.
+Print Assumptions c15_solve_sequence_is_independent_solves.
+
+(** two histories of the shared buffer give the same output *)
+Theorem c15_solve_history_free :
+  forall (T : Type) (t0 : T) (Line Out P : Type) (crange : P -> nat * nat) (usolve : P -> Line -> list T) (evalr : list T -> Out) (nb : nat) (modes : list (P * list Line)) (buf1 buf2 : list T), 1 <= nb -> length buf1 = nb -> length buf2 = nb -> (forall (par : P) (lines : list Line) (ln : Line), In (par, lines) modes -> In ln lines -> qs_adm T Line P crange usolve nb par ln) -> option_map snd (qs_solve_equation T t0 Line Out P crange usolve evalr buf1 modes) = option_map snd (qs_solve_equation T t0 Line Out P crange usolve evalr buf2 modes).
+Proof. exact qs_history_free. Qed.
+Print Assumptions c15_solve_history_free.
+
+(** a zero vector from the solve (zero right-hand side) gives the zero coefficient vector *)
+Theorem c15_solve_zero_rhs :
+  forall (T : Type) (t0 : T) (Line P : Type) (crange : P -> nat * nat) (usolve : P -> Line -> list T) (nb : nat) (par : P) (line : Line), snd (crange par) <= nb -> fst (crange par) <= snd (crange par) -> usolve par line = repeat t0 (snd (crange par) - fst (crange par)) -> qs_indep T t0 Line P crange usolve nb par line = repeat t0 nb.
+Proof. exact qs_zero_rhs. Qed.
+Print Assumptions c15_solve_zero_rhs.
+
+(** boundary coefficients: 0 where the mode is Dirichlet (outside its slice), the first / last unknown where it is Neumann *)
+Theorem c15_solve_boundary :
+  forall (T : Type) (t0 : T) (Line P : Type) (crange : P -> nat * nat) (usolve : P -> Line -> list T) (nb : nat) (par : P) (line : Line), qs_adm T Line P crange usolve nb par line -> 1 <= nb -> (fst (crange par) = 1 -> nth 0 (qs_indep T t0 Line P crange usolve nb par line) t0 = t0) /\ (fst (crange par) = 0 -> snd (crange par) <> 0 -> nth 0 (qs_indep T t0 Line P crange usolve nb par line) t0 = nth 0 (usolve par line) t0) /\ (S (snd (crange par)) = nb -> nth (nb - 1) (qs_indep T t0 Line P crange usolve nb par line) t0 = t0) /\ (snd (crange par) = nb -> fst (crange par) < nb -> nth (nb - 1) (qs_indep T t0 Line P crange usolve nb par line) t0 = nth (nb - 1 - fst (crange par)) (usolve par line) t0).
+Proof. exact qs_boundary. Qed.
+Print Assumptions c15_solve_boundary.
+
+(** the per-mode slices of DiffEqSolver (any Neumann lists, any mode, nbasis >= 2) satisfy the side conditions of the theorem above and match the number of rows of the sliced stiffness matrix *)
+Theorem c15_solve_slices_admissible :
+  forall (nb : Z) (lN uN : list Z) (m : Z), (2 <= nb)%Z -> let a := Z.to_nat (fst (qn_coeff_range nb lN uN m)) in let b := Z.to_nat (snd (qn_coeff_range nb lN uN m)) in a <= 1 /\ Z.to_nat nb - 1 <= b <= Z.to_nat nb /\ a <= b /\ b - a = Z.to_nat (snd (qn_stiff_range nb lN uN m) - fst (qn_stiff_range nb lN uN m)).
+Proof. exact qs_adm_of_qn_ranges. Qed.
+Print Assumptions c15_solve_slices_admissible.
+
+(** the generic fold instantiated with the code step is the model *)
+Theorem c15_solve_fold_is_model :
+  forall (T Line Out P : Type) (t0 : T) (crange : P -> nat * nat) (usolve : P -> Line -> list T) (evalr : list T -> Out) (buf : list T) (modes : list (P * list Line)), qs_equation_with T Line Out P t0 (qs_solve_line T Line Out P crange usolve evalr) buf modes = qs_solve_equation T t0 Line Out P crange usolve evalr buf modes.
+Proof. exact qs_equation_with_code. Qed.
+Print Assumptions c15_solve_fold_is_model.
+
+(** REFUTED variant: skipping the solve for an empty right-hand side (the trivial solution is already in the buffer) returns the previous mode coefficients - not the independent solves *)
+Theorem c15_solve_skip_refuted :
+  exists (buf : list Z) (modes : list (nat * nat * list (list Z))), qsx_run_skip buf modes <> qsx_run buf modes /\ qsx_run buf modes = Some (map (fun ml : nat * nat * list (list Z) => map (fun ln : list Z => qsx_eval (qs_indep Z 0%Z (list Z) (nat * nat) qsx_crange qsx_usolve 4 (fst ml) ln)) (snd ml)) modes).
+Proof. exact qs_skip_refuted. Qed.
+Print Assumptions c15_solve_skip_refuted.
+
+(** a hand-written 2-point transform over Qc also satisfies the laws (kept from the previous round) *)
 Theorem c15_dft2_laws :
   qn_dft_laws Qc (Q2Qc 0) Qcplus Qcmult Qcopp 2 qnq_dft2 qnq_idft2.
 Proof. exact qnq_dft2_laws. Qed.
@@ -210,4 +380,13 @@ Example c15_ex_pipeline :
   = [((1%Z, 1%positive), (0%Z, 1%positive)); ((2%Z, 1%positive), (0%Z, 1%positive));
      ((4%Z, 1%positive), (0%Z, 1%positive)); ((5%Z, 1%positive), (0%Z, 1%positive))].
 Proof. vm_compute. reflexivity. Qed.
+
+(** the 4-point DFT over the Gaussian rationals, computed: x = (1, 2, 3, 4) -> (10, -2+2i, -2, -2-2i), and back *)
+Example c15_ex_dft4 :
+  let x : nat -> qn_C Qc := fun j => dfq_c (Z.of_nat j + 1) 0 in
+  map (fun k => dfq_show (dfq_dft 4 (dfq_c 0 (-1)) x k)) [0; 1; 2; 3]%nat
+  = [((10%Z, 1%positive), (0%Z, 1%positive)); ((-2)%Z, 1%positive, (2%Z, 1%positive)); ((-2)%Z, 1%positive, (0%Z, 1%positive)); ((-2)%Z, 1%positive, ((-2)%Z, 1%positive))]
+  /\ map (fun k => dfq_show (dfq_idft 4 (dfq_c 0 (-1)) (dfq_dft 4 (dfq_c 0 (-1)) x) k)) [0; 1; 2; 3]%nat
+  = [((1%Z, 1%positive), (0%Z, 1%positive)); ((2%Z, 1%positive), (0%Z, 1%positive)); ((3%Z, 1%positive), (0%Z, 1%positive)); ((4%Z, 1%positive), (0%Z, 1%positive))].
+Proof. vm_compute. split; reflexivity. Qed.
 
